@@ -68,10 +68,15 @@ KnownOf(e, bad) ==
        ELSE IF e.op = "tgamma" /\ \A i \in bad : TgammaPoleFlush(f, Lane(e.a, e.t, i), Lane(e.r, e.t, i)) THEN "tgamma-pole-flush"
        ELSE IF e.k = "acc" /\ \A i \in bad : TrigNearZero(e.op, f, Lane(e.a, e.t, i), Lane(e.r, e.t, i), EntOf(e, i)) THEN "trig-near-zero"
        ELSE "-"
+\* The scalar overload xsimd::pow(float, float) is std::pow (xsimd_scalar.hpp: using std::pow), for which ISO C (F.10.4.4) fixes
+\* pow(x, +-0) = 1 and pow(+1, y) = 1 even for a NaN operand.  C12 speaks about the architectures' batch kernels; an observation made
+\* ONLY on the scalar pseudo-architecture may follow the C rule instead of NaN propagation.
+LibmPowOne(fn, f, x, y, r) == fn = "pow" /\ (IsNaN(f, x) \/ IsNaN(f, y)) /\ (IsZeroF(f, y) \/ x = OneF(f)) /\ r = OneF(f)
 Bad(e) ==
   LET f == Fm(e.t) IN
   CASE e.k = "sp1"  -> {i \in 0 .. NL(e.t) - 1 : ~SpecialOK(e.op, f, Lane(e.a, e.t, i), Lane(e.r, e.t, i))}
-    [] e.k = "sp2"  -> {i \in 0 .. NL(e.t) - 1 : ~Special2OK(e.op, f, Lane(e.a, e.t, i), Lane(e.b, e.t, i), Lane(e.r, e.t, i))}
+    [] e.k = "sp2"  -> {i \in 0 .. NL(e.t) - 1 : ~Special2OK(e.op, f, Lane(e.a, e.t, i), Lane(e.b, e.t, i), Lane(e.r, e.t, i))
+                                                   /\ ~(e.archs = <<"scalar">> /\ LibmPowOne(e.op, f, Lane(e.a, e.t, i), Lane(e.b, e.t, i), Lane(e.r, e.t, i)))}
     [] e.k = "pair" -> {i \in 0 .. NL(e.t) - 1 : ~ParityOK(e.op, f, Lane(e.r, e.t, i), Lane(e.r2, e.t, i))}
     [] e.k = "same" -> {i \in 0 .. NL(e.t) - 1 : ~SameOK(f, Lane(e.r, e.t, i), Lane(e.r2, e.t, i))}
     [] e.k = "mix"  -> {i \in 0 .. NL(e.t) - 1 : ~(IF e.exact = 1 THEN SameOK(f, Lane(e.r, e.t, i), Lane(e.r2, e.t, i))
